@@ -52,31 +52,53 @@ func init() {
 	}
 }
 
-func refNTT(a *[256]int64) (out [256]int64) {
+// power tables: refPow[i][j] = r_i^j, refPowInv[i][j] = r_i^(-j); built on first use
+var refPow, refPowInv *[256][256]int64
+
+func refTables() {
+	if refPow != nil {
+		return
+	}
+	var a, b [256][256]int64
 	for i := 0; i < 256; i++ {
-		var acc, p int64 = 0, 1
+		var p, pi int64 = 1, 1
 		for j := 0; j < 256; j++ {
-			acc = (acc + rmod(a[j])*p) % rq
+			a[i][j], b[i][j] = p, pi
 			p = p * refRoots[i] % rq
+			pi = pi * refRootsInv[i] % rq
 		}
-		out[i] = acc
+	}
+	refPow, refPowInv = &a, &b
+}
+
+func init() { refTables() }
+
+// evaluation of the polynomial at the 256 roots (plain sums; 256 products below 2^46 fit in an int64)
+func refNTT(a *[256]int64) (out [256]int64) {
+	var c [256]int64
+	for j := range c {
+		c[j] = rmod(a[j])
+	}
+	for i := 0; i < 256; i++ {
+		var acc int64
+		row := &refPow[i]
+		for j := 0; j < 256; j++ {
+			acc += c[j] * row[j]
+		}
+		out[i] = acc % rq
 	}
 	return
 }
 
+// interpolation: a_j = 256^-1 · Σ_i â_i · r_i^-j
 func refINTT(a *[256]int64) (out [256]int64) {
 	inv256 := rpow(256, rq-2)
-	var pw [256]int64 // r_i^{-j}, updated per j
-	for i := range pw {
-		pw[i] = 1
-	}
 	for j := 0; j < 256; j++ {
 		var acc int64
 		for i := 0; i < 256; i++ {
-			acc = (acc + a[i]*pw[i]) % rq
-			pw[i] = pw[i] * refRootsInv[i] % rq
+			acc += rmod(a[i]) * refPowInv[i][j]
 		}
-		out[j] = acc * inv256 % rq
+		out[j] = acc % rq * inv256 % rq
 	}
 	return
 }
@@ -208,4 +230,246 @@ func refKeygen(xi []byte) (pk, sk []byte) {
 		sk = append(sk, packBits(t0s[i], 13)...)
 	}
 	return
+}
+
+// ---------------------------------------------------------------- reference signer
+
+type refKey struct {
+	rho, key, tr []byte
+	s1           [dL][256]int64
+	s2, t0       [dK][256]int64
+	ahat         [dK][dL][256]int64
+	pk, sk       []byte
+}
+
+// refKeyFull: the key material of the specification for ξ (same computation as refKeygen, keeping the parts)
+func refKeyFull(xi []byte) *refKey {
+	k := &refKey{}
+	buf := refShake(false, xi, 128)
+	rhoPrime := buf[32:96]
+	k.rho, k.key = append([]byte{}, buf[:32]...), append([]byte{}, buf[96:128]...)
+	var s1hat [dL][256]int64
+	for j := 0; j < dL; j++ {
+		k.s1[j] = refPolyUniformEta(rhoPrime, uint16(j))
+		s1hat[j] = refNTT(&k.s1[j])
+	}
+	for i := 0; i < dK; i++ {
+		k.s2[i] = refPolyUniformEta(rhoPrime, uint16(dL+i))
+	}
+	k.pk = append([]byte{}, k.rho...)
+	for i := 0; i < dK; i++ {
+		var that [256]int64
+		for j := 0; j < dL; j++ {
+			k.ahat[i][j] = refPolyUniform(k.rho, uint16(i<<8+j))
+			for c := 0; c < 256; c++ {
+				that[c] = (that[c] + k.ahat[i][j][c]*s1hat[j][c]) % rq
+			}
+		}
+		t := refINTT(&that)
+		t1 := make([]int64, 256)
+		for c := 0; c < 256; c++ {
+			v := rmod(t[c] + k.s2[i][c])
+			r0 := v % 8192
+			if r0 > 4096 {
+				r0 -= 8192
+			}
+			t1[c], k.t0[i][c] = (v-r0)/8192, r0
+		}
+		k.pk = append(k.pk, packBits(t1, 10)...)
+	}
+	k.tr = refShake(false, k.pk, 32)
+	return k
+}
+
+const (
+	rGamma1 = 1 << 19
+	rGamma2 = (rq - 1) / 32
+	rBeta   = 120
+	rOmega  = 75
+	rTau    = 60
+)
+
+func centred(x int64) int64 { // representative in (−q/2, q/2]
+	x = rmod(x)
+	if x > (rq-1)/2 {
+		x -= rq
+	}
+	return x
+}
+
+// Decompose_q(r, 2γ2) of the specification
+func refDecompose(r int64) (r1, r0 int64) {
+	r = rmod(r)
+	r0 = r % (2 * rGamma2)
+	if r0 > rGamma2 {
+		r0 -= 2 * rGamma2
+	}
+	if r-r0 == rq-1 {
+		return 0, r0 - 1
+	}
+	return (r - r0) / (2 * rGamma2), r0
+}
+
+// c·s in Z[X]/(X^256+1) for a challenge with coefficients in {−1, 0, 1}
+func refMulC(c *[256]int64, s *[256]int64) (out [256]int64) {
+	for i := 0; i < 256; i++ {
+		if c[i] == 0 {
+			continue
+		}
+		for j := 0; j < 256; j++ {
+			if i+j < 256 {
+				out[i+j] += c[i] * s[j]
+			} else {
+				out[i+j-256] -= c[i] * s[j]
+			}
+		}
+	}
+	return
+}
+
+func refSampleInBall(seed []byte) (c [256]int64) {
+	buf := refShake(false, seed, 8+8*136)
+	var signs uint64
+	for i := 0; i < 8; i++ {
+		signs |= uint64(buf[i]) << (8 * uint(i))
+	}
+	pos := 8
+	for i := 256 - rTau; i < 256; i++ {
+		var j int
+		for {
+			j = int(buf[pos])
+			pos++
+			if j <= i {
+				break
+			}
+		}
+		c[i] = c[j]
+		c[j] = 1 - 2*int64(signs&1)
+		signs >>= 1
+	}
+	return
+}
+
+func refExpandMask(rhoPrime []byte, nonce uint16) (y [256]int64) {
+	buf := refShake(false, append(append([]byte{}, rhoPrime...), byte(nonce), byte(nonce>>8)), 640)
+	for i := 0; i < 256; i++ {
+		bit := 20 * i
+		var v int64
+		for b := 0; b < 20; b++ {
+			v |= int64(buf[(bit+b)/8]>>uint((bit+b)%8)&1) << uint(b)
+		}
+		y[i] = rGamma1 - v
+	}
+	return
+}
+
+// refSign: the deterministic signature of the specification; attempts = number of rejection-loop iterations;
+// formulationsDiffer counts iterations on which the two published formulations of the low-bits test would decide differently
+func refSign(k *refKey, msg []byte) (sig []byte, attempts int, formulationsDiffer int) {
+	mu := refShake(false, append(append([]byte{}, k.tr...), msg...), 64)
+	rhoPrime := refShake(false, append(append([]byte{}, k.key...), mu...), 64)
+	for kappa := 0; kappa < 2000; kappa++ {
+		attempts++
+		var y, yhat [dL][256]int64
+		for j := 0; j < dL; j++ {
+			y[j] = refExpandMask(rhoPrime, uint16(dL*kappa+j))
+			yhat[j] = refNTT(&y[j])
+		}
+		var w [dK][256]int64
+		var w1 [dK][256]int64
+		var w1flat []int64
+		for i := 0; i < dK; i++ {
+			var what [256]int64
+			for j := 0; j < dL; j++ {
+				for c := 0; c < 256; c++ {
+					what[c] = (what[c] + k.ahat[i][j][c]*yhat[j][c]) % rq
+				}
+			}
+			w[i] = refINTT(&what)
+			for c := 0; c < 256; c++ {
+				w1[i][c], _ = refDecompose(w[i][c])
+				w1flat = append(w1flat, w1[i][c])
+			}
+		}
+		ctil := refShake(false, append(append([]byte{}, mu...), packBits(w1flat, 4)...), 32)
+		c := refSampleInBall(ctil)
+		// z = y + c·s1
+		var z [dL][256]int64
+		ok := true
+		for j := 0; j < dL && ok; j++ {
+			cs1 := refMulC(&c, &k.s1[j])
+			for i := 0; i < 256; i++ {
+				z[j][i] = y[j][i] + cs1[i]
+				if z[j][i] >= rGamma1-rBeta || z[j][i] <= -(rGamma1-rBeta) {
+					ok = false
+				}
+			}
+		}
+		if !ok {
+			continue
+		}
+		// low bits: ‖LowBits(w − c·s2)‖ < γ2 − β (specification) / ‖w0 − c·s2‖ < γ2 − β (reference code)
+		var r [dK][256]int64
+		okSpec, okCode := true, true
+		for i := 0; i < dK; i++ {
+			cs2 := refMulC(&c, &k.s2[i])
+			for j := 0; j < 256; j++ {
+				r[i][j] = rmod(w[i][j] - cs2[j])
+				_, r0 := refDecompose(r[i][j])
+				if r0 >= rGamma2-rBeta || r0 <= -(rGamma2-rBeta) {
+					okSpec = false
+				}
+				_, w0 := refDecompose(w[i][j])
+				d := centred(w0 - cs2[j])
+				if d >= rGamma2-rBeta || d <= -(rGamma2-rBeta) {
+					okCode = false
+				}
+			}
+		}
+		if okSpec != okCode {
+			formulationsDiffer++
+		}
+		if !okCode {
+			continue
+		}
+		// c·t0 and the hints
+		var hints [dK][]int64
+		total := 0
+		for i := 0; i < dK && ok; i++ {
+			ct0 := refMulC(&c, &k.t0[i])
+			for j := 0; j < 256; j++ {
+				if ct0[j] >= rGamma2 || ct0[j] <= -rGamma2 {
+					ok = false
+					break
+				}
+				h1, _ := refDecompose(r[i][j] + ct0[j])
+				if h1 != w1[i][j] {
+					hints[i] = append(hints[i], int64(j))
+					total++
+				}
+			}
+		}
+		if !ok || total > rOmega {
+			continue
+		}
+		sig = append([]byte{}, ctil...)
+		for j := 0; j < dL; j++ {
+			v := make([]int64, 256)
+			for i := range v {
+				v[i] = rGamma1 - z[j][i]
+			}
+			sig = append(sig, packBits(v, 20)...)
+		}
+		hb := make([]byte, rOmega+dK)
+		n := 0
+		for i := 0; i < dK; i++ {
+			for _, p := range hints[i] {
+				hb[n] = byte(p)
+				n++
+			}
+			hb[rOmega+i] = byte(n)
+		}
+		return append(sig, hb...), attempts, formulationsDiffer
+	}
+	return nil, attempts, formulationsDiffer
 }
